@@ -1,7 +1,7 @@
 (** C18 — the statements of Props/C18.v. *)
 From Coq Require Import ZArith List Bool Lia Permutation Sorted.
 From Hts Require Import Base.Prim Model.Merger Proofs.MergeRun Proofs.Merger Proofs.MergerTop
-     Proofs.MergerHeap Proofs.MergerOrders.
+     Proofs.MergerHeap Proofs.MergerOrders Proofs.MergerHeapOrd.
 Import ListNotations.
 Open Scope Z_scope.
 
@@ -158,21 +158,33 @@ Proof.
   eapply sorted_gen; eauto. apply listpq_spec; assumption.
 Qed.
 
+(** ... and closed, on the transcribed container/heap *)
+Lemma sorted_goheap : forall links (le : rec -> rec -> Prop) less ins,
+    (forall a b c, le a b -> le b c -> le a c) -> less_compat le less ->
+    ins_ok links 0 ins -> ins_sorted links le 0 ins ->
+    exists outs e mf,
+      run_merge goheap links (Some less) ins = Ok (outs, e, mf) /\
+      StronglySorted le (map snd outs) /\ merge_result links ins outs e.
+Proof.
+  intros links le less ins Htr HC Hok Hs.
+  eapply sorted_gen; eauto. apply goheap_min_spec; assumption.
+Qed.
+
 (** the orders NewMerger selects *)
 Lemma sorted_declared : forall links so code less ins,
     pick_less so code = Some less ->
     ins_ok links 0 ins ->
     ins_sorted links (if so =? 2 then le_name else if so =? 3 then le_coord else le_custom code) 0 ins ->
     exists outs e mf,
-      run_merge listpq links (Some less) ins = Ok (outs, e, mf) /\
+      run_merge goheap links (Some less) ins = Ok (outs, e, mf) /\
       StronglySorted (if so =? 2 then le_name else if so =? 3 then le_coord else le_custom code) (map snd outs) /\
       merge_result links ins outs e.
 Proof.
   intros links so code less ins Hp Hok Hs. unfold pick_less in Hp.
   destruct (so =? 1); [discriminate |].
   destruct (so =? 2).
-  - inversion Hp; subst. apply sorted_listpq; auto; [exact le_name_trans | exact less_by_name_compat].
+  - inversion Hp; subst. apply sorted_goheap; auto; [exact le_name_trans | exact less_by_name_compat].
   - destruct (so =? 3).
-    + inversion Hp; subst. apply sorted_listpq; auto; [exact le_coord_trans | exact less_by_coordinate_compat].
-    + apply sorted_listpq; auto; [apply le_custom_trans | now apply custom_less_compat].
+    + inversion Hp; subst. apply sorted_goheap; auto; [exact le_coord_trans | exact less_by_coordinate_compat].
+    + apply sorted_goheap; auto; [apply le_custom_trans | now apply custom_less_compat].
 Qed.
